@@ -242,7 +242,7 @@ class Gen:
             st["steps"].append(step)
             if st.get("stop"):
                 break
-        if final_select:
+        if final_select and not st.get("stop"):
             seen, its, cis, fc = set(), [], [], []
             for q, c in st["cols"]:
                 if c in seen or c.startswith("?"):
